@@ -46,6 +46,7 @@ def op_library():
 
 
 READ_OPS = ("get", "gets", "gat", "gats", "get_many", "gets_many")
+HASH_UNSUPPORTED = ("version", "cache_memlimit", "shutdown", "raw_command", "getitem", "setitem", "delitem")
 
 
 def preload(srv, prefix=b""):
@@ -116,6 +117,9 @@ def make_client(env, kind, cfg):
             kw[k] = cfg[k]
     if cfg.get("tls"):
         kw["tls_context"] = env.tls()
+    if cfg.get("keepalive"):
+        from pymemcache.client.base import KeepaliveOpts
+        kw["socket_keepalive"] = KeepaliveOpts(*cfg["keepalive"])
     if kind in ("pooled", "hash-pooled"):
         if "max_pool_size" in cfg:
             kw["max_pool_size"] = cfg["max_pool_size"]
@@ -134,7 +138,20 @@ def interpret(case, observer=None):
     Runs the history; returns a Run.  `observer(run, i, call, outcome)` is invoked after every call
     and may raise Violation."""
     cfg = case.get("cfg", {})
-    env = Env(nservers=case.get("nservers", 1), pieces=case.get("pieces"), eintr=case.get("eintr"))
+    addrs = None
+    if case.get("unix"):
+        addrs = [case["unix"]]
+    env = Env(nservers=case.get("nservers", 1), pieces=case.get("pieces"), eintr=case.get("eintr"), addrs=addrs)
+    if case.get("resolves"):
+        # the host name resolves to several addresses (mixed families); all of them reach the same server
+        host, port = env.addrs[0]
+        res = []
+        for fam, ip in case["resolves"]:
+            fam = {"inet": env.net.AF_INET, "inet6": env.net.AF_INET6}[fam]
+            sockaddr = (ip, port) if fam == env.net.AF_INET else (ip, port, 0, 0)
+            res.append((fam, sockaddr))
+            env.net.add_server((ip, port), env.servers[0])
+        env.net.resolve[host] = res
     if case.get("coalesce") is False:
         env.net.coalesce = False
     for srv in env.servers:
@@ -153,7 +170,11 @@ def interpret(case, observer=None):
             if call.get("advance"):
                 env.clock.advance(call["advance"])
             n0 = len(env.net.log)
-            out = env.call(ops.invoke, c, call["op"])
+            if case["kind"].startswith("hash") and call["op"]["op"] in HASH_UNSUPPORTED:
+                out = ("skipped", None)       # HashClient does not offer this operation
+                env.ncalls += 1
+            else:
+                out = env.call(ops.invoke, c, call["op"])
             run.outcomes.append(out)
             counts = {}
             evs = []
